@@ -51,6 +51,11 @@ structure Obs where
   bals : AMap (Addr × ClassId) Nat := []
   deriving Repr, Inhabited
 
+/-- the observation of a model state: balances as `GetBalance` would report them -/
+def obsOf (s : State) : Obs :=
+  { st := s,
+    bals := (Tbl.live s.idx).foldl (fun m e => AMap.set m (e.1.1, e.1.2.1) (balanceOf s e.1.1 e.1.2.1)) [] }
+
 def liveTokens (s : State) : List (ClassId × TokenId) := (Tbl.live s.tokens).map (·.1)
 def liveOwners (s : State) : List (ClassId × TokenId) := (Tbl.live s.owners).map (·.1)
 def liveIdx (s : State) : List (Addr × ClassId × TokenId) := (Tbl.live s.idx).map (·.1)
